@@ -363,12 +363,16 @@ Definition create_effects (b : name) (files : list path) (ts : str) : list effec
 Definition copies_part (b : name) (files : list path) : list effect :=
   [Mkdir (backup_dir b); Mkdir (backup_root b)] ++ flat_map (copy_effects b) files.
 
-(* BackupManager.create_backup; backup_name=None is resolved by the caller *)
-Definition create_backup (m : mgr) (f : fs) (files : list path) (b : name) (ts : str)
+(* BackupManager.create_backup; backup_name=None is resolved by the caller.
+   [fixed = true] is the code after the fix: commit for C18-F1 (the name is also
+   refused when backups/<name> exists on disk, whatever the cached dictionary
+   says); [fixed = false] is the code before it, kept as the record of the defect. *)
+Definition create_backup (fixed : bool) (m : mgr) (f : fs) (files : list path) (b : name) (ts : str)
   : fs * mgr * res bool :=
   match mgr_get m b with
   | Some _ => (f, m, Ok false)
   | None =>
+      if fixed && exists_ f (backup_dir b) then (f, m, Ok false) else
       match exec f (copies_part b files) with
       | (f1, Exn e) => (f1, m, Exn e)
       | (f1, Ok _) =>
